@@ -592,10 +592,12 @@ fn execute_write_count(db: &core::Db, cypher: &str, params: &Params) -> ApiResul
         ));
     }
     let prepared = prepare(cypher).map_err(|e| ApiError::from_query_message(&e.to_string()))?;
-    let snapshot = db.snapshot();
     #[cfg(luqing_studio_nervusdb_verif)]
     nervusdb_core::verif_hooks::sched("capi.write.after_snapshot");
+    // The writer lock comes first: a snapshot taken before it could be stale by the time
+    // the statement runs, and an update computed from it would overwrite a concurrent one.
     let mut txn = db.begin_write();
+    let snapshot = db.snapshot();
     #[cfg(luqing_studio_nervusdb_verif)]
     nervusdb_core::verif_hooks::sched("capi.write.after_begin_write");
     let (_rows, write_count) = prepared
